@@ -11,6 +11,37 @@ def phase_of(m):
     return "none" if m.subgraph is None else ("fitted" if m.subgraph.trained else "untrained")
 
 
+def testsuite_traces(rep):
+    """The repository's own tests as call sequences: every model object they construct, with the outcome class and the observable
+    phase after each public call (lib/lifecyclerec_plugin.py), run in a scratch copy of tests/ and data/ against the tree under test."""
+    import json
+    import shutil
+    import subprocess
+    import sys
+
+    if not os.path.isdir(os.path.join(H.REPO, "tests")):
+        rep.skip("repository_has_no_tests_directory")
+        return []
+    wd = H.subdir("x01-testsuite")
+    for name in ("tests", "data"):
+        shutil.rmtree(os.path.join(wd, name), ignore_errors=True)
+        if os.path.isdir(os.path.join(H.REPO, name)):
+            shutil.copytree(os.path.join(H.REPO, name), os.path.join(wd, name), ignore=shutil.ignore_patterns("__pycache__"))
+    if os.path.exists(os.path.join(H.REPO, "pytest.ini")):
+        shutil.copy(os.path.join(H.REPO, "pytest.ini"), wd)
+    out = os.path.join(wd, "lifecycle.json")
+    if os.path.exists(out):
+        os.remove(out)
+    env = dict(os.environ, LIFECYCLE_OUT=out, PYTHONPATH=H.REPO + os.pathsep + os.path.join(H.VERIF, "lib"), PYTHONDONTWRITEBYTECODE="1", PYTHONHASHSEED="0")
+    p = subprocess.run([sys.executable, "-m", "pytest", "-q", "-p", "no:cacheprovider", "-p", "lifecyclerec_plugin", "--timeout=900", "tests"],
+                       cwd=wd, env=env, stdout=subprocess.PIPE, stderr=subprocess.STDOUT, text=True, timeout=1800)
+    if not os.path.exists(out):
+        raise H.MachineryError("the recording test run wrote no call sequences\n" + p.stdout[-1500:])
+    body = json.load(open(out))
+    rep.cov["testsuite_exit_status"] = body["exitstatus"]       # reported, not judged
+    return body["traces"]
+
+
 def run(tier, seed):
     rep = H.Report(PID, tier, seed, "model_checking")
     res = H.run_tlc("Lifecycle", "Lifecycle.cfg", workers=1, timeout=120, tag="lifecycle")
@@ -65,10 +96,43 @@ def run(tier, seed):
         ev = []
         saved = None
         for _ in range(rng.randrange(3, 12)):
-            ops = ["fit", "predict", "predict", "save", "load"] + (["propagate"] if kind == "unsup" else []) + (["fit_wrong_matrix"] if kind == "knn" else [])
+            ops = ["fit", "predict", "predict", "save", "load", "fit_bad_index", "fit_empty"] + (["propagate"] if kind == "unsup" else []) + (["fit_wrong_matrix"] if kind == "knn" else []) + (["learn", "prune", "assign"] if kind == "sup" else ["assign"])
             op = rng.choice(ops)
             try:
-                if op == "fit":
+                if op in ("fit_bad_index", "fit_empty"):
+                    # a fit that cannot succeed: an index array pointing outside the pre-computed matrix (fails after the new subgraph
+                    # replaced the old one), an empty training set (fails before any subgraph exists)
+                    bad = op == "fit_bad_index"
+                    A, B = (X, Y) if bad else (X[:0], Y[:0])
+                    I = np.array([0, 1, 2, 3, 4, 5, 6, 99]) if bad else None
+                    if bad:
+                        m.pre_computed_distance = True
+                        m.pre_distances = np.ones((8, 8))
+                    try:
+                        if kind == "sup":
+                            m.fit(A, B, I)
+                        elif kind == "semi":
+                            m.fit(A, B, Xv, I)
+                        elif kind == "knn":
+                            m.fit(A, B, Xv, Yv, I, None if I is None else np.arange(4))
+                        else:
+                            m.fit(A, B, I)
+                    finally:
+                        m.pre_computed_distance = False
+                        m.pre_distances = None
+                    op = "fit_fail"
+                elif op == "learn":
+                    m.learn(X.copy(), Y.copy(), Xv.copy(), Yv.copy(), n_iterations=2)
+                elif op == "prune":
+                    m.prune(X.copy(), Y.copy(), Xv.copy(), Yv.copy(), n_iterations=2)
+                elif op == "assign":
+                    # the public setter: an untrained subgraph, or none at all, put in from outside
+                    from opfython.core.subgraph import Subgraph
+                    from opfython.subgraphs.knn import KNNSubgraph
+                    m.subgraph = rng.choice([None, (KNNSubgraph if kind in ("knn", "unsup") else Subgraph)(X, Y)])
+                if op in ("fit_fail", "learn", "prune", "assign"):
+                    pass
+                elif op == "fit":
                     if kind == "sup":
                         m.fit(X, Y)
                     elif kind == "semi":
@@ -106,9 +170,17 @@ def run(tier, seed):
                     pass
             if op == "load" and out != "ok":
                 pass
+            if op in ("fit_bad_index", "fit_empty"):
+                op = "fit_fail"
             ev.append({"op": op, "out": out, "phase": phase_of(m)})
         traces.append({"kind": kind, "ev": ev})
         metas.append({"kind": kind, "i": i})
+    ndriven = len(traces)
+    for t in testsuite_traces(rep):
+        traces.append(t)
+        metas.append({"kind": t["kind"], "i": "repository test suite"})
+    rep.cov["call_sequences_driven"] = ndriven
+    rep.cov["call_sequences_from_the_repository_tests"] = len(traces) - ndriven
     path = H.write_json(os.path.join(H.subdir("x01"), "lc.json"), traces)
     res = H.run_tlc("LifecycleTrace", "LifecycleTrace.cfg", workers=1, env={"TRACE_FILE": path}, timeout=600, tag="lctrace")
     pr = {p[0]: p[1:] for p in res.prints if p and isinstance(p[0], str)}
@@ -124,7 +196,7 @@ def run(tier, seed):
             l = reached.get(tid, 1)
             e = traces[tid - 1]["ev"][l - 1]
             rep.violation(cls[traces[tid - 1]["kind"]].__name__ + "." + e["op"], "call_outcome_or_phase_not_a_lifecycle_step", e["out"], {"trace": traces[tid - 1], "rejected_at_event": l})
-    rep.cov["rule"] = "random call sequences (fit, fit with a wrong-sized matrix, predict, propagate_labels, save, load) on the four model kinds, outcome class and observable phase after each call replayed through Lifecycle's actions; construction outcome table (distance identifier x pre-computed file argument) for the four kinds"
+    rep.cov["rule"] = "random call sequences (fit, fits that fail before / after the new subgraph exists, fit with a wrong-sized matrix, learn, prune, assignment through the subgraph setter, predict, propagate_labels, save, load) on the four model kinds, and the call sequences of every model object in the repository's own test suite, outcome class and observable phase after each call replayed through Lifecycle's actions; construction outcome table (distance identifier x pre-computed file argument) for the four kinds"
     rep.assumptions = ["TLC", "phase observed as subgraph is not None and subgraph.trained"]
     return rep.finish()
 
